@@ -200,7 +200,7 @@ Definition rinv (st : rstate) (Nd : list (string * list (string * option string)
 
 Lemma joined_blank ls : joined_value (ls ++ [EmptyString]) = joined_value ls.
 Proof.
-  unfold joined_value. destruct ls as [|l r]; [reflexivity|].
+  unfold joined_value, joined_raw. destruct ls as [|l r]; [reflexivity|].
   rewrite join_app_s by discriminate. cbn [join]. rewrite app_nil_r_s.
   rewrite rstrip_app_space by reflexivity. reflexivity.
 Qed.
@@ -292,25 +292,93 @@ Proof.
 Qed.
 
 (* ================================================================== the sub-grammar and the lines of a view *)
+Definition xform (cs : bool) (k : string) : string := if cs then k else lower k.
+Definition mname (k mk : string) : string := k ++ ":" ++ mk.
+Definition mkey_ok (mk : string) : Prop :=
+  mk <> EmptyString /\ rstrip mk = mk /\ has_char eqsign mk = false /\ no_nl mk.
+
+Definition meta_item_ok (cs : bool) (w : nat) (k : string) (kv : string * option string) : Prop :=
+  mkey_ok (fst kv) /\ xform cs (fst kv) = fst kv /\
+  match snd kv with
+  | Some x => value_ok x /\ String.length (plain_line (mname k (fst kv)) x) <= w
+  | None => String.length (mname k (fst kv)) <= w
+  end.
+
 Definition entry_ok (cs : bool) (w : nat) (ke : string * entry) : Prop :=
   fst ke = e_key (snd ke) /\ key_ok (e_key (snd ke)) /\ has_char colon (e_key (snd ke)) = false /\
-  no_nl (e_key (snd ke)) /\ (if cs then e_key (snd ke) else lower (e_key (snd ke))) = e_key (snd ke) /\
-  value_ok (e_val (snd ke)) /\ e_meta (snd ke) = [] /\
-  String.length (plain_line (e_key (snd ke)) (e_val (snd ke))) <= w.
+  no_nl (e_key (snd ke)) /\ xform cs (e_key (snd ke)) = e_key (snd ke) /\
+  value_ok (e_val (snd ke)) /\
+  String.length (plain_line (e_key (snd ke)) (e_val (snd ke))) <= w /\
+  NoDup (map fst (e_meta (snd ke))) /\ Forall (meta_item_ok cs w (e_key (snd ke))) (e_meta (snd ke)).
+
+(* the options an entry is written as: the entry itself, then one option key:meta per metadata item *)
+Definition entry_opts (ke : string * entry) : list (string * option string) :=
+  (e_key (snd ke), Some (e_val (snd ke))) ::
+  map (fun kv => (mname (e_key (snd ke)) (fst kv), snd kv)) (e_meta (snd ke)).
+Definition exp_opts (s : sect) : list (string * option string) := flat_map entry_opts s.
+Definition exp_norm (v : sections) := map (fun ns => (fst ns, exp_opts (snd ns))) v.
+
 Definition section_ok (cs : bool) (w : nat) (ns : string * sect) : Prop :=
   sn_ok (fst ns) /\ snd ns <> [] /\ NoDup (map fst (snd ns)) /\ Forall (entry_ok cs w) (snd ns).
 Definition view_ok (cs : bool) (w : nat) (v : sections) : Prop :=
   NoDup (map fst v) /\ Forall (section_ok cs w) v.
 
-Definition entry_line (ke : string * entry) : string := plain_line (e_key (snd ke)) (e_val (snd ke)).
-Definition sect_lines (ns : string * sect) : list string := ("[" ++ fst ns ++ "]") :: map entry_line (snd ns).
+Definition opt_line (o : string * option string) : string :=
+  match snd o with Some x => plain_line (fst o) x | None => fst o end.
+Definition entry_lines_of (ke : string * entry) : list string :=
+  (map opt_line (entry_opts ke) ++ match e_meta (snd ke) with [] => [] | _ => [EmptyString] end)%list.
+Definition sect_lines (ns : string * sect) : list string :=
+  ("[" ++ fst ns ++ "]") :: flat_map entry_lines_of (snd ns).
 Fixpoint tail_lines (v : sections) : list string :=
   match v with
   | [] => [EmptyString]
   | ns :: r => (EmptyString :: EmptyString :: sect_lines ns ++ tail_lines r)%list
   end.
-Definition exp_opts (s : sect) : list (string * option string) := map (fun ke => (fst ke, Some (e_val (snd ke)))) s.
-Definition exp_norm (v : sections) := map (fun ns => (fst ns, exp_opts (snd ns))) v.
+
+(* ---- one option line *)
+Definition opt_ok (cs : bool) (o : string * option string) : Prop :=
+  key_ok (fst o) /\ xform cs (fst o) = fst o /\ match snd o with Some x => value_ok x | None => True end.
+
+Lemma partition_nochar c s : has_char c s = false -> partition_on c s = (s, false, EmptyString).
+Proof.
+  unfold has_char. induction s as [|a r IH]; [reflexivity|]. cbn [sany partition_on]. intros H.
+  apply orb_false_iff in H. destruct H as [Ha Hr]. rewrite Ascii.eqb_sym, Ha, (IH Hr). reflexivity.
+Qed.
+
+Lemma read_novalue_line (cs : bool) (st : rstate) (k sn : string) opts :
+  key_ok k -> r_sect st = Some sn -> sget sn (r_done st) = Some opts ->
+  let k' := if cs then k else lower k in
+  smem k' opts = false ->
+  read_line cs (Ok st) k = Ok (RState (sset (r_done st) sn (opts ++ [(k', None)])%list) (Some sn) (Some k') 0).
+Proof.
+  intros [Hk [Hkr Hke]] Hs Ho k' Hm. destruct k as [|a kr]; [contradiction|]. destruct Hk as [Ha1 [Ha2 [Ha3 Ha4]]].
+  assert (Els : lstrip (String a kr) = String a kr) by (apply lstrip_nonspace; exact Ha4).
+  assert (Estrip : strip (String a kr) = String a kr) by (unfold strip; rewrite Els; exact Hkr).
+  assert (Ecom : is_comment (String a kr) = false) by (apply is_comment_other; assumption).
+  assert (Eind : indent_of (String a kr) = 0) by (unfold indent_of; rewrite Els; apply Nat.sub_diag).
+  unfold read_line. rewrite Estrip, Ecom. cbv iota. rewrite Eind, Hs.
+  assert (Enew : new_line cs st (String a kr) 0 =
+                 Ok (RState (sset (r_done st) sn (opts ++ [(k', None)])%list) (Some sn) (Some k') 0)).
+  { unfold new_line. rewrite header_of_other by assumption. rewrite Hs.
+    rewrite (partition_nochar eqsign (String a kr) Hke). rewrite Hkr. rewrite Ho. fold k'. rewrite Hm. reflexivity. }
+  destruct (r_opt st); [simpl; exact Enew|exact Enew].
+Qed.
+
+Lemma read_opt (cs : bool) st Nd sn no (o : string * option string) :
+  rinv st Nd sn no -> opt_ok cs o -> smem (fst o) no = false ->
+  exists st', read_line cs (Ok st) (opt_line o) = Ok st' /\ rinv st' Nd sn (no ++ [o]).
+Proof.
+  intros I [Hk [Hx Hv]] Hm. destruct o as [k [v|]]; simpl in *.
+  - unfold opt_line. simpl. apply read_entry; assumption.
+  - destruct (rinv_sget _ _ _ _ I) as [opts [Eo En]]. destruct I as [N [D S]].
+    pose proof (read_novalue_line cs st k sn opts Hk S Eo) as R. cbv zeta in R. unfold xform in Hx. rewrite Hx in R.
+    rewrite <- En, smem_norm in Hm. specialize (R Hm).
+    eexists. split; [exact R|]. split; [|split; [exact D|reflexivity]].
+    cbn [r_done]. unfold sset. rewrite norm_parsed_aset, N.
+    rewrite aset_last by (exact string_eqb_spec || exact D).
+    unfold norm_sect at 1. rewrite map_app. cbn [map fst snd opt_value option_map].
+    fold (norm_sect opts). rewrite En. reflexivity.
+Qed.
 
 Lemma smem_snoc {V} k (l : list (string * V)) k0 x :
   smem k (l ++ [(k0, x)]) = (smem k l || String.eqb k k0)%bool.
@@ -319,32 +387,193 @@ Proof.
   destruct (String.eqb k k0); reflexivity.
 Qed.
 
+Lemma fold_read_app cs l1 l2 st : fold_left (read_line cs) (l1 ++ l2) st = fold_left (read_line cs) l2 (fold_left (read_line cs) l1 st).
+Proof. apply fold_left_app. Qed.
+
+Lemma read_opts cs os : forall st Nd sn no,
+  rinv st Nd sn no -> Forall (opt_ok cs) os -> NoDup (map fst os) ->
+  (forall k, In k (map fst os) -> smem k no = false) ->
+  exists st', fold_left (read_line cs) (map opt_line os) (Ok st) = Ok st' /\ rinv st' Nd sn (no ++ os).
+Proof.
+  induction os as [|o r IH]; intros st Nd sn no I F ND Hm.
+  - exists st. split; [reflexivity|]. rewrite app_nil_r. exact I.
+  - inversion F as [|? ? Fo Fr]; subst. inversion ND as [|? ? Nk NDr]; subst.
+    destruct (read_opt cs st Nd sn no o I Fo (Hm _ (or_introl eq_refl))) as [st1 [R1 I1]].
+    destruct (IH st1 Nd sn (no ++ [o])%list I1 Fr NDr) as [st2 [R2 I2]].
+    { intros k Hk. destruct o as [k0 x]. rewrite smem_snoc, (Hm k (or_intror Hk)). simpl.
+      destruct (String.eqb k k0) eqn:Ek; [|reflexivity].
+      apply String.eqb_eq in Ek. subst k. exfalso. apply Nk. exact Hk. }
+    exists st2. split.
+    + change (map opt_line (o :: r)) with (opt_line o :: map opt_line r).
+      change (fold_left (read_line cs) (opt_line o :: map opt_line r) (Ok st))
+        with (fold_left (read_line cs) (map opt_line r) (read_line cs (Ok st) (opt_line o))).
+      rewrite R1. exact R2.
+    + rewrite <- app_assoc in I2. exact I2.
+Qed.
+
+(* ---- the options of an entry are well-formed option lines *)
+Lemma smap_app f a b : smap f (a ++ b) = smap f a ++ smap f b.
+Proof. induction a as [|x r IH]; simpl; [reflexivity|]. rewrite IH. reflexivity. Qed.
+
+Lemma mname_ok cs k mk : key_ok k -> xform cs k = k -> mkey_ok mk -> xform cs mk = mk ->
+  key_ok (mname k mk) /\ xform cs (mname k mk) = mname k mk.
+Proof.
+  intros [Hk [Hkr Hke]] Hx [Mn [Mr [Me _]]] Hmx. split.
+  - split; [|split].
+    + destruct k as [|a kr]; [contradiction|]. exact Hk.
+    + unfold mname. rewrite <- app_assoc_s. apply rstrip_app_keep; assumption.
+    + unfold mname, has_char in *. rewrite !any_app, Hke, Me. reflexivity.
+  - unfold xform in *. destruct cs; [reflexivity|]. unfold mname, lower in *. rewrite !smap_app, Hx, Hmx. reflexivity.
+Qed.
+
+Lemma entry_opts_ok cs w ke : entry_ok cs w ke -> Forall (opt_ok cs) (entry_opts ke).
+Proof.
+  intros [_ [Hk [_ [_ [Hx [Hv [_ [_ Fm]]]]]]]]. unfold entry_opts. constructor.
+  - split; [exact Hk|split; [exact Hx|exact Hv]].
+  - rewrite Forall_forall in *. intros o Ho. apply in_map_iff in Ho. destruct Ho as [kv [<- Hkv]].
+    destruct (Fm kv Hkv) as [M1 [M2 M3]]. destruct (mname_ok cs _ _ Hk Hx M1 M2) as [A B].
+    split; [exact A|split; [exact B|]]. simpl. destruct (snd kv); [exact (proj1 M3)|exact I].
+Qed.
+
+Lemma nodup_app_disj {A} (a b : list A) : NoDup (a ++ b) -> forall x, In x a -> ~ In x b.
+Proof.
+  induction a as [|y r IH]; intros ND x Hx; [destruct Hx|]. simpl in ND. inversion ND; subst.
+  destruct Hx as [->|Hx]; [intros H; apply H1; rewrite in_app_iff; right; exact H|apply IH; assumption].
+Qed.
+
+Lemma nodup_app_l {A} (a b : list A) : NoDup (a ++ b) -> NoDup a.
+Proof.
+  induction a as [|y r IH]; intros ND; [constructor|]. simpl in ND. inversion ND; subst. constructor.
+  - intros H. apply H1. rewrite in_app_iff. left. exact H.
+  - apply IH. exact H2.
+Qed.
+Lemma nodup_app_r {A} (a b : list A) : NoDup (a ++ b) -> NoDup b.
+Proof. induction a as [|y r IH]; intros ND; [exact ND|]. simpl in ND. inversion ND; subst. apply IH. exact H2. Qed.
+
 Lemma read_entries cs w es : forall st Nd sn no,
-  rinv st Nd sn no -> Forall (entry_ok cs w) es -> NoDup (map fst es) ->
-  (forall k, In k (map fst es) -> smem k no = false) ->
-  exists st', fold_left (read_line cs) (map entry_line es) (Ok st) = Ok st' /\ rinv st' Nd sn (no ++ exp_opts es).
+  rinv st Nd sn no -> Forall (entry_ok cs w) es -> NoDup (map fst (exp_opts es)) ->
+  (forall k, In k (map fst (exp_opts es)) -> smem k no = false) ->
+  exists st', fold_left (read_line cs) (flat_map entry_lines_of es) (Ok st) = Ok st' /\ rinv st' Nd sn (no ++ exp_opts es).
 Proof.
   induction es as [|ke r IH]; intros st Nd sn no I F ND Hm.
   - exists st. split; [reflexivity|]. simpl. rewrite app_nil_r. exact I.
-  - inversion F as [|? ? Fe Fr]; subst. inversion ND as [|? ? Nk NDr]; subst.
-    destruct Fe as [E1 [E2 [E3 [E4 [E5 [E6 [E7 E8]]]]]]].
-    assert (M0 : smem (e_key (snd ke)) no = false) by (apply Hm; left; exact E1).
-    destruct (read_entry cs st Nd sn no _ _ I E2 E6 E5 M0) as [st1 [R1 I1]].
-    destruct (IH st1 Nd sn (no ++ [(e_key (snd ke), Some (e_val (snd ke)))])%list I1 Fr NDr) as [st2 [R2 I2]].
-    { intros k Hk. rewrite smem_snoc, (Hm k (or_intror Hk)). simpl.
-      destruct (String.eqb k (e_key (snd ke))) eqn:Ek; [|reflexivity].
-      apply String.eqb_eq in Ek. subst k. exfalso. apply Nk. rewrite E1. exact Hk. }
+  - inversion F as [|? ? Fe Fr]; subst.
+    change (exp_opts (ke :: r)) with (entry_opts ke ++ exp_opts r)%list in *. rewrite map_app in ND, Hm.
+    destruct (read_opts cs (entry_opts ke) st Nd sn no I (entry_opts_ok cs w ke Fe) (nodup_app_l _ _ ND))
+      as [st1 [R1 I1]].
+    { intros k Hk. apply Hm. rewrite in_app_iff. left. exact Hk. }
+    assert (B : exists st1', fold_left (read_line cs) (entry_lines_of ke) (Ok st) = Ok st1' /\
+                             rinv st1' Nd sn (no ++ entry_opts ke)).
+    { unfold entry_lines_of. rewrite fold_read_app, R1. destruct (e_meta (snd ke)).
+      - exists st1. split; [reflexivity|exact I1].
+      - destruct (read_blank cs st1 _ _ _ I1) as [st1' [Rb Ib]]. exists st1'. split; [exact Rb|exact Ib]. }
+    destruct B as [st1' [R1' I1']].
+    destruct (IH st1' Nd sn (no ++ entry_opts ke)%list I1' Fr (nodup_app_r _ _ ND)) as [st2 [R2 I2]].
+    { intros k Hk. unfold smem, amem. rewrite (proj2 (aget_none_notin _ _ _ string_eqb_spec _ k)); [reflexivity|].
+      rewrite map_app, in_app_iff. intros [H|H].
+      - assert (Hs : smem k no = false) by (apply Hm; rewrite in_app_iff; right; exact Hk).
+        unfold smem, amem in Hs. apply (in_map_iff) in H. destruct H as [[k1 x1] [E1 H1]]. simpl in E1. subst k1.
+        destruct (aget String.eqb k no) eqn:Eg; [discriminate|].
+        apply (aget_none_notin _ _ _ string_eqb_spec) in Eg. apply Eg. apply (in_map fst) in H1. exact H1.
+      - exact (nodup_app_disj _ _ ND k H Hk). }
     exists st2. split.
-    + change (plain_line (e_key (snd ke)) (e_val (snd ke))) with (entry_line ke) in R1.
-      change (map entry_line (ke :: r)) with (entry_line ke :: map entry_line r).
-      change (fold_left (read_line cs) (entry_line ke :: map entry_line r) (Ok st))
-        with (fold_left (read_line cs) (map entry_line r) (read_line cs (Ok st) (entry_line ke))).
-      rewrite R1. exact R2.
-    + rewrite <- app_assoc in I2. cbn [exp_opts map]. rewrite E1. exact I2.
+    + cbn [flat_map]. rewrite fold_read_app, R1'. exact R2.
+    + rewrite <- app_assoc in I2. exact I2.
 Qed.
 
-Lemma fold_read_app cs l1 l2 st : fold_left (read_line cs) (l1 ++ l2) st = fold_left (read_line cs) l2 (fold_left (read_line cs) l1 st).
-Proof. apply fold_left_app. Qed.
+(* the option names key / key:meta of a section are pairwise different *)
+Lemma nodup_app_intro {A} (a b : list A) : NoDup a -> NoDup b -> (forall x, In x a -> ~ In x b) -> NoDup (a ++ b).
+Proof.
+  induction a as [|y r IH]; intros Na Nb D; [exact Nb|]. inversion Na; subst. simpl. constructor.
+  - rewrite in_app_iff. intros [H|H]; [contradiction|]. exact (D y (or_introl eq_refl) H).
+  - apply IH; [assumption|assumption|]. intros x Hx. apply D. right. exact Hx.
+Qed.
+
+Lemma prefix_colon' k name : has_char colon name = false -> prefix_b (k ++ ":") name = false.
+Proof.
+  revert name. induction k as [|x k' IH]; intros name H.
+  - destruct name as [|a r]; [reflexivity|]. unfold has_char in H. cbn [sany] in H. apply orb_false_iff in H.
+    cbn [append prefix_b]. change (Ascii.eqb ":" a) with (Ascii.eqb colon a). rewrite (proj1 H). reflexivity.
+  - destruct name as [|a r]; [reflexivity|]. unfold has_char in H. cbn [sany] in H. apply orb_false_iff in H.
+    change (String x k' ++ ":") with (String x (k' ++ ":")). cbn [prefix_b]. rewrite (IH r (proj2 H)). apply andb_false_r.
+Qed.
+
+Lemma prefix_app' a b : prefix_b a (a ++ b) = true.
+Proof. induction a as [|x r IH]; [reflexivity|]. simpl. rewrite Ascii.eqb_refl, IH. reflexivity. Qed.
+
+Lemma prefix_own' k x : prefix_b (k ++ ":") (mname k x) = true.
+Proof. unfold mname. rewrite <- app_assoc_s. apply prefix_app'. Qed.
+
+Lemma prefix_other' k : forall k' x,
+  has_char colon k = false -> has_char colon k' = false -> k <> k' -> prefix_b (k ++ ":") (mname k' x) = false.
+Proof.
+  unfold mname, has_char. induction k as [|c kr IH]; intros k' x Hk Hk' N.
+  - destruct k' as [|a r]; [contradiction|]. cbn [sany] in Hk'. apply orb_false_iff in Hk'.
+    cbn [append prefix_b]. change (Ascii.eqb ":" a) with (Ascii.eqb colon a). rewrite (proj1 Hk'). reflexivity.
+  - cbn [sany] in Hk. apply orb_false_iff in Hk. destruct Hk as [Hc Hkr].
+    change (String c kr ++ ":") with (String c (kr ++ ":")).
+    destruct k' as [|a r].
+    + cbn [append prefix_b]. change (Ascii.eqb c ":") with (Ascii.eqb c colon). rewrite Ascii.eqb_sym, Hc. reflexivity.
+    + cbn [sany] in Hk'. apply orb_false_iff in Hk'. destruct Hk' as [_ Hr].
+      change (String a r ++ ":" ++ x) with (String a (r ++ ":" ++ x)). cbn [prefix_b].
+      destruct (Ascii.eqb c a) eqn:E; [|reflexivity]. apply Ascii.eqb_eq in E. subst a.
+      rewrite (IH r x Hkr Hr); [reflexivity|]. intros ->. apply N. reflexivity.
+Qed.
+
+Lemma mname_inj k a b : mname k a = mname k b -> a = b.
+Proof. unfold mname. induction k as [|c r IH]; simpl; intros H; [inversion H; reflexivity|]. inversion H. auto. Qed.
+
+Lemma names_entry_opts ke :
+  map fst (entry_opts ke) = e_key (snd ke) :: map (mname (e_key (snd ke))) (map fst (e_meta (snd ke))).
+Proof. unfold entry_opts. cbn [map fst]. rewrite !map_map. reflexivity. Qed.
+
+(* a name of entry_opts ke is recognised by the prefix test for ke's key, and only for that key *)
+Lemma name_prefix cs w ke x k :
+  entry_ok cs w ke -> In x (map fst (entry_opts ke)) -> has_char colon k = false ->
+  (x = e_key (snd ke) /\ has_char colon x = false) \/
+  (prefix_b (k ++ ":") x = String.eqb k (e_key (snd ke)) /\ has_char colon x = true).
+Proof.
+  intros [_ [_ [Kc _]]] H Hk. rewrite names_entry_opts in H. destruct H as [<-|H].
+  - left. split; [reflexivity|exact Kc].
+  - right. apply in_map_iff in H. destruct H as [mk [<- _]]. split.
+    + destruct (String.eqb k (e_key (snd ke))) eqn:E.
+      * apply String.eqb_eq in E. subst. apply prefix_own'.
+      * apply prefix_other'; [exact Hk|exact Kc|]. intros ->. rewrite String.eqb_refl in E. discriminate.
+    + unfold mname, has_char. rewrite !any_app. simpl. apply orb_true_r.
+Qed.
+
+Lemma entry_names_nodup cs w ke : entry_ok cs w ke -> NoDup (map fst (entry_opts ke)).
+Proof.
+  intros E. pose proof E as [_ [_ [Kc [_ [_ [_ [_ [ND _]]]]]]]]. rewrite names_entry_opts. constructor.
+  - intros H. apply in_map_iff in H. destruct H as [mk [Em _]].
+    assert (C : has_char colon (mname (e_key (snd ke)) mk) = true).
+    { unfold mname, has_char. rewrite !any_app. simpl. apply orb_true_r. }
+    rewrite Em, Kc in C. discriminate.
+  - clear -ND. induction (map fst (e_meta (snd ke))) as [|a r IH]; [constructor|]. inversion ND; subst. simpl. constructor.
+    + intros H. apply in_map_iff in H. destruct H as [b [Eb Hb]]. apply mname_inj in Eb. subst. contradiction.
+    + apply IH. assumption.
+Qed.
+
+Lemma opt_names_nodup cs w s :
+  NoDup (map fst s) -> Forall (entry_ok cs w) s -> NoDup (map fst (exp_opts s)).
+Proof.
+  induction s as [|ke r IH]; intros ND F; [constructor|]. inversion ND; subst. inversion F; subst.
+  change (exp_opts (ke :: r)) with (entry_opts ke ++ exp_opts r)%list. rewrite map_app.
+  apply nodup_app_intro; [eapply entry_names_nodup; eassumption|apply IH; assumption|].
+  intros x Hx Hr. unfold exp_opts in Hr. rewrite flat_map_concat_map, concat_map, map_map in Hr.
+  apply in_concat in Hr. destruct Hr as [l [Hl Hxl]]. apply in_map_iff in Hl. destruct Hl as [ke' [<- Hke']].
+  rewrite Forall_forall in H4. pose proof (H4 ke' Hke') as E'. pose proof H3 as E.
+  assert (Kc : has_char colon (e_key (snd ke)) = false) by (destruct E as [_ [_ [Kc _]]]; exact Kc).
+  assert (Kc' : has_char colon (e_key (snd ke')) = false) by (destruct E' as [_ [_ [Kc' _]]]; exact Kc').
+  assert (Nk : e_key (snd ke) <> e_key (snd ke')).
+  { intros Ek. apply H1. destruct E as [E1 _]. destruct E' as [E1' _]. rewrite E1, Ek, <- E1'. apply in_map. exact Hke'. }
+  destruct (name_prefix cs w ke x (e_key (snd ke)) E Hx Kc) as [[X1 X2]|[X1 X2]];
+    destruct (name_prefix cs w ke' x (e_key (snd ke)) E' Hxl Kc) as [[Y1 Y2]|[Y1 Y2]].
+  - apply Nk. rewrite <- X1, <- Y1. reflexivity.
+  - rewrite X2 in Y2. discriminate.
+  - rewrite X2 in Y2. discriminate.
+  - rewrite X1, String.eqb_refl in Y1. symmetry in Y1. apply String.eqb_eq in Y1. contradiction.
+Qed.
 
 Lemma read_tail cs w r : forall st Nd sn no,
   rinv st Nd sn no -> Forall (section_ok cs w) r ->
@@ -356,12 +585,13 @@ Proof.
   - destruct (read_blank cs st Nd sn no I) as [st1 [R1 I1]]. exists st1. split; [simpl; exact R1|].
     simpl. rewrite app_nil_r. exact (proj1 I1).
   - inversion F as [|? ? Fs Fr]; subst. destruct Fs as [S1 [S2 [S3 S4]]].
+    pose proof (opt_names_nodup cs w _ S3 S4) as S5.
     destruct (read_blank cs st Nd sn no I) as [st1 [R1 I1]].
     destruct (read_blank cs st1 Nd sn no I1) as [st2 [R2 I2]].
     assert (Hn : ~ In (fst ns) (map fst (Nd ++ [(sn, no)]))).
     { apply NoDup_remove_2 in ND. intros H. apply ND. rewrite in_app_iff. left. exact H. }
     destruct (read_header cs st2 Nd sn no (fst ns) I2 S1 Hn) as [st3 [R3 I3]].
-    destruct (read_entries cs w (snd ns) st3 _ _ [] I3 S4 S3 (fun _ _ => eq_refl)) as [st4 [R4 I4]].
+    destruct (read_entries cs w (snd ns) st3 _ _ [] I3 S4 S5 (fun _ _ => eq_refl)) as [st4 [R4 I4]].
     simpl in I4.
     destruct (IH st4 (Nd ++ [(sn, no)])%list (fst ns) (exp_opts (snd ns)) I4 Fr) as [st5 [R5 N5]].
     { rewrite (map_app fst (Nd ++ [(sn, no)])%list). cbn [map fst]. rewrite <- app_assoc. exact ND. }
@@ -378,8 +608,9 @@ Lemma read_view cs w ns r :
               norm_parsed (r_done st') = exp_norm (ns :: r).
 Proof.
   intros [ND F]. inversion F as [|? ? Fs Fr]; subst. destruct Fs as [S1 [S2 [S3 S4]]].
+  pose proof (opt_names_nodup cs w _ S3 S4) as S5.
   destruct (read_first_header cs (fst ns) S1) as [st1 [R1 I1]].
-  destruct (read_entries cs w (snd ns) st1 _ _ [] I1 S4 S3 (fun _ _ => eq_refl)) as [st2 [R2 I2]].
+  destruct (read_entries cs w (snd ns) st1 _ _ [] I1 S4 S5 (fun _ _ => eq_refl)) as [st2 [R2 I2]].
   simpl in I2.
   destruct (read_tail cs w r st2 [] (fst ns) (exp_opts (snd ns)) I2 Fr ND) as [st3 [R3 N3]].
   exists st3. split.
@@ -411,25 +642,62 @@ Proof.
     + inversion H. reflexivity.
 Qed.
 
-Lemma entry_str_plain cs w ke : entry_ok cs w ke -> entry_str w true (snd ke) = entry_line ke.
+Lemma ends_plain k x : value_ok x -> ends_nonblank (plain_line k x) = true.
 Proof.
-  intros [_ [_ [_ [_ [_ [[Vn [Vl [Vr Vnl]]] [M L]]]]]]].
-  unfold entry_str, entry_lines. rewrite M. cbn [andb join].
-  unfold entry_line. apply fill_fits; [|exact L].
-  unfold plain_line. rewrite ends_nonblank_app by (simpl; discriminate).
+  intros [Vn [_ [Vr _]]]. unfold plain_line. rewrite ends_nonblank_app by (simpl; discriminate).
   rewrite (ends_nonblank_app " = ") by exact Vn. apply rstrip_ends; assumption.
+Qed.
+
+Lemma entry_lines_eq cs w ke : entry_ok cs w ke -> entry_lines w true (snd ke) = entry_lines_of ke.
+Proof.
+  intros [_ [_ [_ [_ [_ [Hv [L [_ Fm]]]]]]]].
+  unfold entry_lines, entry_lines_of, entry_opts. cbv zeta.
+  assert (E1 : fill w (key_width + 3) (pad_right key_width (e_key (snd ke)) ++ " = " ++ e_val (snd ke))
+               = plain_line (e_key (snd ke)) (e_val (snd ke))).
+  { apply fill_fits; [apply ends_plain; exact Hv|exact L]. }
+  rewrite E1.
+  assert (Emap : map (fun kv : string * option string =>
+                        match snd kv with
+                        | Some v => fill w (key_width + 3) (pad_right key_width (e_key (snd ke) ++ ":" ++ fst kv) ++ " = " ++ v)
+                        | None => fill w (key_width + 3) (e_key (snd ke) ++ ":" ++ fst kv)
+                        end) (e_meta (snd ke))
+                 = map opt_line (map (fun kv => (mname (e_key (snd ke)) (fst kv), snd kv)) (e_meta (snd ke)))).
+  { rewrite map_map. apply map_ext_in. intros kv Hkv. rewrite Forall_forall in Fm.
+    destruct (Fm kv Hkv) as [[Mn [Mr _]] [_ M3]]. unfold opt_line. cbn [fst snd]. destruct (snd kv) as [x|].
+    - destruct M3 as [Vx Lx]. apply fill_fits; [apply (ends_plain (mname _ _)); exact Vx|exact Lx].
+    - apply fill_fits; [|exact M3]. unfold mname. rewrite ends_nonblank_app by (simpl; discriminate).
+      rewrite (ends_nonblank_app ":") by exact Mn. apply rstrip_ends; assumption. }
+  destruct (e_meta (snd ke)) as [|m0 mr]; [reflexivity|].
+  cbn [andb]. rewrite Emap. reflexivity.
 Qed.
 
 Lemma join_cons_s sep h l : l <> [] -> join sep (h :: l) = h ++ sep ++ join sep l.
 Proof. destruct l; [contradiction|reflexivity]. Qed.
 
+Lemma join_concat sep ls : Forall (fun l => l <> []) ls -> join sep (map (join sep) ls) = join sep (List.concat ls).
+Proof.
+  induction ls as [|l r IH]; intros F; [reflexivity|]. inversion F; subst.
+  destruct r as [|l2 r2].
+  - simpl. rewrite app_nil_r. reflexivity.
+  - change (map (join sep) (l :: l2 :: r2)) with (join sep l :: map (join sep) (l2 :: r2)).
+    rewrite join_cons_s by discriminate. rewrite IH by assumption.
+    cbn [List.concat]. rewrite (join_app_s sep l); [reflexivity|assumption|].
+    inversion H2; subst. destruct l2; [contradiction|discriminate].
+Qed.
+
 Lemma section_str_lines cs w ns : section_ok cs w ns -> section_str w true ns = join (s1 nl) (sect_lines ns).
 Proof.
   intros [_ [Ne [_ F]]]. unfold section_str, sect_lines. destruct (snd ns) as [|ke r] eqn:E; [contradiction|].
-  rewrite join_cons_s by discriminate.
-  replace (map (fun ke0 : string * entry => entry_str w true (snd ke0)) (ke :: r)) with (map entry_line (ke :: r)).
-  - rewrite !app_assoc_s. reflexivity.
-  - apply map_ext_in. intros x Hx. symmetry. apply (entry_str_plain cs). rewrite Forall_forall in F. apply F. exact Hx.
+  rewrite join_cons_s.
+  - replace (map (fun ke0 : string * entry => entry_str w true (snd ke0)) (ke :: r))
+      with (map (join (s1 nl)) (map entry_lines_of (ke :: r))).
+    + rewrite join_concat.
+      * rewrite <- flat_map_concat_map. rewrite !app_assoc_s. reflexivity.
+      * rewrite Forall_forall. intros l Hl. apply in_map_iff in Hl. destruct Hl as [x [<- _]].
+        unfold entry_lines_of, entry_opts. discriminate.
+    + rewrite map_map. apply map_ext_in. intros x Hx. unfold entry_str.
+      rewrite (entry_lines_eq cs w x); [reflexivity|]. rewrite Forall_forall in F. apply F. exact Hx.
+  - cbn [flat_map]. unfold entry_lines_of at 1, entry_opts. discriminate.
 Qed.
 
 Fixpoint mid_lines (v : sections) : list string :=
@@ -464,7 +732,7 @@ Proof.
   induction v as [|ns r IH]; intros F; [reflexivity|]. inversion F; subst.
   cbn [map filter]. rewrite (section_str_lines cs w ns H1), (IH H2).
   unfold sect_lines at 1. rewrite join_cons_s; [reflexivity|].
-  destruct H1 as [_ [Ne _]]. destruct (snd ns); [contradiction|discriminate].
+  destruct H1 as [_ [Ne _]]. destruct (snd ns); [contradiction|]. cbn [flat_map]. unfold entry_lines_of at 1, entry_opts. discriminate.
 Qed.
 
 Lemma as_str_lines cs w c ns r :
@@ -480,13 +748,30 @@ Proof. unfold no_nl, has_char. intros Ha Hb. rewrite any_app, Ha, Hb. reflexivit
 Lemma no_nl_spaces n : no_nl (spaces n).
 Proof. unfold no_nl, has_char. apply any_spaces. reflexivity. Qed.
 
+Lemma no_nl_plain k x : no_nl k -> no_nl x -> no_nl (plain_line k x).
+Proof.
+  intros Hk Hx. unfold plain_line, pad_right. repeat apply no_nl_app; try assumption; try reflexivity. apply no_nl_spaces.
+Qed.
+
+Lemma entry_lines_no_nl cs w ke : entry_ok cs w ke -> Forall no_nl (entry_lines_of ke).
+Proof.
+  intros [_ [_ [_ [Kn [_ [[_ [_ [_ Vn]]] [_ [_ Fm]]]]]]]]. unfold entry_lines_of, entry_opts.
+  apply Forall_app. split.
+  - cbn [map]. constructor; [unfold opt_line; cbn [fst snd]; apply no_nl_plain; assumption|].
+    rewrite map_map. rewrite Forall_forall in *. intros l Hl. apply in_map_iff in Hl. destruct Hl as [kv [<- Hkv]].
+    destruct (Fm kv Hkv) as [[_ [_ [_ Mn]]] [_ M3]]. unfold opt_line. cbn [fst snd].
+    assert (Nm : no_nl (mname (e_key (snd ke)) (fst kv))).
+    { unfold mname. repeat apply no_nl_app; try assumption; reflexivity. }
+    destruct (snd kv) as [x|]; [|exact Nm]. apply no_nl_plain; [exact Nm|]. destruct M3 as [[_ [_ [_ Xn]]] _]. exact Xn.
+  - destruct (e_meta (snd ke)); repeat constructor.
+Qed.
+
 Lemma sect_lines_no_nl cs w ns : section_ok cs w ns -> Forall no_nl (sect_lines ns).
 Proof.
   intros [[_ [_ [_ [_ Sn]]]] [_ [_ F]]]. unfold sect_lines. constructor.
   - apply (no_nl_app "["); [reflexivity|]. apply no_nl_app; [exact Sn|reflexivity].
-  - rewrite Forall_forall in *. intros l Hl. apply in_map_iff in Hl. destruct Hl as [ke [<- Hke]].
-    destruct (F ke Hke) as [_ [_ [_ [Kn [_ [[_ [_ [_ Vn]]] _]]]]]].
-    unfold entry_line, plain_line, pad_right. repeat apply no_nl_app; try assumption; try reflexivity. apply no_nl_spaces.
+  - rewrite Forall_forall in *. intros l Hl. apply in_flat_map in Hl. destruct Hl as [ke [Hke Hl]].
+    pose proof (entry_lines_no_nl cs w ke (F ke Hke)) as G. rewrite Forall_forall in G. apply G. exact Hl.
 Qed.
 
 Lemma mid_lines_no_nl cs w r : Forall (section_ok cs w) r -> Forall no_nl (mid_lines r).
@@ -566,55 +851,135 @@ Proof.
 Qed.
 
 (* ================================================================== items of update_from_file for a written view *)
-Definition mk_upd (path sn : string) (ke : string * entry) : upd := Upd sn (fst ke) (e_val (snd ke)) None path [].
+Definition mk_upd (path sn : string) (ke : string * entry) : upd :=
+  Upd sn (fst ke) (e_val (snd ke)) None path (e_meta (snd ke)).
 Definition exp_items (path : string) (v : sections) : list upd :=
   flat_map (fun ns => map (mk_upd path (fst ns)) (snd ns)) v.
-
-Lemma prefix_colon k name : has_char colon name = false -> prefix_b (k ++ ":") name = false.
-Proof.
-  revert name. induction k as [|x k' IH]; intros name H.
-  - destruct name as [|a r]; [reflexivity|]. unfold has_char in H. cbn [sany] in H. apply orb_false_iff in H.
-    cbn [append prefix_b]. change (Ascii.eqb ":" a) with (Ascii.eqb colon a). rewrite (proj1 H). reflexivity.
-  - destruct name as [|a r]; [reflexivity|]. unfold has_char in H. cbn [sany] in H. apply orb_false_iff in H.
-    change (String x k' ++ ":") with (String x (k' ++ ":")). cbn [prefix_b]. rewrite (IH r (proj2 H)). apply andb_false_r.
-Qed.
 
 Lemma py_replace_novars x : py_replace all_off [] None x = Ok x.
 Proof. apply (replace_unknown_kept 11 [] x). intros m _. reflexivity. Qed.
 
-Lemma section_items_aux cs w path sn all : forall o s,
+(* the metadata collected for key k from the (normalised) options of a section *)
+Definition gk (k : string) (o : string * option string) : list (string * option string) :=
+  if prefix_b (k ++ ":") (fst o) then [(snd (partition_on colon (fst o)), snd o)] else [].
+
+Lemma flat_map_map_s {A B C} (f : B -> list C) (g : A -> B) l : flat_map f (map g l) = flat_map (fun x => f (g x)) l.
+Proof. induction l as [|x r IH]; [reflexivity|]. simpl. rewrite IH. reflexivity. Qed.
+
+Lemma flat_map_nil {A B} (f : A -> list B) l : (forall x, In x l -> f x = []) -> flat_map f l = [].
+Proof.
+  induction l as [|x r IH]; intros H; [reflexivity|]. simpl. rewrite (H x (or_introl eq_refl)).
+  apply IH. intros y Hy. apply H. right. exact Hy.
+Qed.
+
+Lemma flat_map_single {A} (f : A -> list A) l : (forall x, In x l -> f x = [x]) -> flat_map f l = l.
+Proof.
+  induction l as [|x r IH]; intros H; [reflexivity|]. simpl. rewrite (H x (or_introl eq_refl)). simpl. f_equal.
+  apply IH. intros y Hy. apply H. right. exact Hy.
+Qed.
+
+Lemma gk_entry k cs w ke :
+  entry_ok cs w ke -> has_char colon k = false ->
+  flat_map (gk k) (entry_opts ke) = if String.eqb k (e_key (snd ke)) then e_meta (snd ke) else [].
+Proof.
+  intros [_ [_ [Kc _]]] Hk. unfold entry_opts. cbn [flat_map]. unfold gk at 1. cbn [fst snd].
+  rewrite prefix_colon' by exact Kc. cbn [app]. rewrite flat_map_map_s.
+  destruct (String.eqb k (e_key (snd ke))) eqn:E.
+  - apply String.eqb_eq in E. subst k. apply flat_map_single. intros [mk mv] _. unfold gk. cbn [fst snd].
+    rewrite prefix_own'. unfold mname. change (":" ++ mk) with (String colon mk).
+    rewrite (partition_app_nochar colon _ mk Kc). reflexivity.
+  - apply flat_map_nil. intros [mk mv] _. unfold gk. cbn [fst snd]. rewrite prefix_other'; [reflexivity|exact Hk|exact Kc|].
+    intros ->. rewrite String.eqb_refl in E. discriminate.
+Qed.
+
+Lemma collect_none cs w s k :
+  Forall (entry_ok cs w) s -> has_char colon k = false -> ~ In k (map fst s) -> flat_map (gk k) (exp_opts s) = [].
+Proof.
+  induction s as [|ke r IH]; intros F Hk N; [reflexivity|]. inversion F; subst.
+  change (exp_opts (ke :: r)) with (entry_opts ke ++ exp_opts r)%list. rewrite flat_map_app.
+  rewrite (gk_entry k cs w ke H1 Hk). rewrite IH; [|assumption|assumption|intros H; apply N; right; exact H].
+  destruct (String.eqb k (e_key (snd ke))) eqn:E; [|reflexivity].
+  apply String.eqb_eq in E. exfalso. apply N. left. destruct H1 as [E1 _]. rewrite E1. symmetry. exact E.
+Qed.
+
+Lemma collect_in cs w s ke :
+  NoDup (map fst s) -> Forall (entry_ok cs w) s -> In ke s ->
+  flat_map (gk (e_key (snd ke))) (exp_opts s) = e_meta (snd ke).
+Proof.
+  induction s as [|ke0 r IH]; intros ND F Hin; [destruct Hin|]. inversion F; subst. inversion ND; subst.
+  assert (Kc : has_char colon (e_key (snd ke)) = false).
+  { rewrite Forall_forall in F. destruct (F ke Hin) as [_ [_ [Kc _]]]. exact Kc. }
+  change (exp_opts (ke0 :: r)) with (entry_opts ke0 ++ exp_opts r)%list. rewrite flat_map_app.
+  rewrite (gk_entry _ cs w ke0 H1 Kc).
+  destruct Hin as [->|Hin].
+  - rewrite String.eqb_refl. rewrite (collect_none cs w r); [apply app_nil_r|assumption|exact Kc|].
+    destruct H1 as [E1 _]. rewrite <- E1. exact H3.
+  - assert (E : String.eqb (e_key (snd ke)) (e_key (snd ke0)) = false).
+    { destruct (String.eqb (e_key (snd ke)) (e_key (snd ke0))) eqn:E; [|reflexivity]. apply String.eqb_eq in E.
+      exfalso. apply H3. destruct H1 as [E1 _]. rewrite E1, <- E.
+      rewrite Forall_forall in H2. destruct (H2 ke Hin) as [E2 _]. rewrite <- E2. apply in_map. exact Hin. }
+    rewrite E. simpl. apply IH; assumption.
+Qed.
+
+Definition collector (all : list (string * option (list string))) (k : string) : meta :=
+  flat_map (fun kv2 : string * option (list string) =>
+              if prefix_b (k ++ ":") (fst kv2)
+              then [(snd (partition_on colon (fst kv2)), meta_value all_off (snd kv2))] else []) all.
+
+Lemma collector_norm all k : collector all k = flat_map (gk k) (norm_sect all).
+Proof. unfold collector, norm_sect. rewrite flat_map_map_s. reflexivity. Qed.
+
+Lemma map_eq_app_s {A B} (f : A -> B) l : forall l1 l2,
+  map f l = (l1 ++ l2)%list -> exists a b, l = (a ++ b)%list /\ map f a = l1 /\ map f b = l2.
+Proof.
+  induction l as [|x r IH]; intros l1 l2 H.
+  - destruct l1; [|discriminate]. destruct l2; [|discriminate]. exists [], []. repeat split.
+  - destruct l1 as [|y l1'].
+    + exists [], (x :: r). repeat split. exact H.
+    + simpl in H. inversion H. destruct (IH l1' l2 H2) as [a [b [E [Ea Eb]]]].
+      exists (x :: a), b. subst. repeat split.
+Qed.
+
+Lemma section_items_aux cs w path sn all : forall s o,
   norm_sect o = exp_opts s -> Forall (entry_ok cs w) s ->
-  (forall kv2, In kv2 all -> has_char colon (fst kv2) = false) ->
+  (forall ke, In ke s -> collector all (e_key (snd ke)) = e_meta (snd ke)) ->
   flat_map (file_item all_off path [] sn false EmptyString all) o = map (fun ke => Ok (mk_upd path sn ke)) s.
 Proof.
-  intros o s. revert o. induction s as [|ke r IH]; intros o E F P.
+  induction s as [|ke r IH]; intros o E F C.
   - destruct o; [reflexivity|discriminate].
-  - destruct o as [|kv o']; [discriminate|]. simpl in E. inversion E as [[E1 E2 E3]]. inversion F as [|? ? Fe Fr]; subst.
+  - change (exp_opts (ke :: r)) with (entry_opts ke ++ exp_opts r)%list in E.
+    destruct (map_eq_app_s _ o _ _ E) as [o1 [o2 [-> [E1 E2]]]]. inversion F as [|? ? Fe Fr]; subst.
+    rewrite flat_map_app. rewrite (IH o2 E2 Fr) by (intros x Hx; apply C; right; exact Hx).
+    cbn [map]. change (Ok (mk_upd path sn ke) :: map (fun ke0 => Ok (mk_upd path sn ke0)) r)
+      with ([Ok (mk_upd path sn ke)] ++ map (fun ke0 => Ok (mk_upd path sn ke0)) r)%list. f_equal.
     destruct Fe as [K1 [_ [K3 _]]].
-    cbn [flat_map map]. rewrite (IH o' E3 Fr P). unfold file_item. cbv zeta. rewrite E1, K1, K3, E2.
-    assert (M : flat_map (fun kv2 : string * option (list string) =>
-                            if prefix_b (e_key (snd ke) ++ ":") (fst kv2)
-                            then [(snd (partition_on colon (fst kv2)), meta_value all_off (snd kv2))] else []) all = []).
-    { clear -P. induction all as [|a l IHl]; [reflexivity|]. cbn [flat_map].
-      rewrite prefix_colon by (apply P; left; reflexivity). apply IHl. intros kv2 H. apply P. right. exact H. }
-    rewrite M, !py_replace_novars. unfold mk_upd. rewrite K1. reflexivity.
+    unfold entry_opts in E1. destruct o1 as [|kv o1']; [discriminate|].
+    change (norm_sect (kv :: o1')) with ((fst kv, opt_value (snd kv)) :: norm_sect o1') in E1. inversion E1 as [[N1 N2 N3]].
+    cbn [flat_map]. rewrite (flat_map_nil _ o1').
+    + rewrite app_nil_r. unfold file_item. cbv zeta.
+      change (opt_value_q all_off (snd kv)) with (opt_value (snd kv)). rewrite N1, K3, N2.
+      fold (collector all (e_key (snd ke))). rewrite (C ke (or_introl eq_refl)).
+      rewrite !py_replace_novars. unfold mk_upd. rewrite K1. reflexivity.
+    + intros kv2 H2. unfold file_item. cbv zeta.
+      assert (Hc : has_char colon (fst kv2) = true).
+      { assert (H3 : In (fst kv2, opt_value (snd kv2)) (norm_sect o1')).
+        { unfold norm_sect. apply (in_map (fun kv => (fst kv, opt_value (snd kv)))). exact H2. }
+        unfold norm_sect in H3. rewrite N3 in H3. apply in_map_iff in H3. destruct H3 as [m [Em _]]. cbn beta in Em. inversion Em as [[En Ev]].
+        try rewrite <- En. unfold mname, has_char. rewrite !any_app. simpl. apply orb_true_r. }
+      rewrite Hc. reflexivity.
 Qed.
 
 Lemma names_norm_sect o : map fst (norm_sect o) = map fst o.
 Proof. unfold norm_sect. rewrite map_map. reflexivity. Qed.
-Lemma names_exp_opts s : map fst (exp_opts s) = map fst s.
-Proof. unfold exp_opts. rewrite map_map. reflexivity. Qed.
 
 Lemma section_items_ok cs w path sn o s :
   norm_sect o = exp_opts s -> section_ok cs w (sn, s) ->
   section_items all_off path [] sn o = map (fun ke => Ok (mk_upd path sn ke)) s.
 Proof.
-  intros E [[Sn [_ [_ [Sp _]]]] [_ [_ F]]]. simpl in *. unfold section_items. rewrite Sp.
+  intros E [[Sn [_ [_ [Sp _]]]] [_ [ND F]]]. simpl in *. unfold section_items. rewrite Sp.
   destruct sn as [|a sn']; [contradiction|].
   apply (section_items_aux cs w); [exact E|exact F|].
-  intros kv2 H. apply (in_map fst) in H. rewrite <- names_norm_sect, E, names_exp_opts in H.
-  apply in_map_iff in H. destruct H as [ke [Ek Hke]]. rewrite Forall_forall in F.
-  destruct (F ke Hke) as [K1 [_ [K3 _]]]. rewrite <- Ek, K1. exact K3.
+  intros ke Hke. rewrite collector_norm, E. apply (collect_in cs w); assumption.
 Qed.
 
 Lemma all_items_ok cs w path : forall p v,
@@ -644,6 +1009,20 @@ Proof.
   rewrite norm_parsed_get in A. destruct (aget String.eqb k p); [discriminate|reflexivity].
 Qed.
 
+Lemma fold_sset_nodup {V} (m : list (string * V)) : forall acc,
+  NoDup (map fst acc ++ map fst m) ->
+  fold_left (fun d kv => sset d (fst kv) (snd kv)) m acc = (acc ++ m)%list.
+Proof.
+  induction m as [|[k x] r IH]; intros acc ND; [rewrite app_nil_r; reflexivity|].
+  simpl. unfold sset at 2. rewrite (aset_new _ _ String.eqb acc k x).
+  - rewrite IH; [rewrite <- app_assoc; reflexivity|]. rewrite map_app. simpl. rewrite <- app_assoc. exact ND.
+  - apply (aget_none_notin _ _ _ string_eqb_spec). simpl in ND. apply NoDup_remove_2 in ND.
+    intros H. apply ND. rewrite in_app_iff. left. exact H.
+Qed.
+
+Lemma norm_meta_id m : NoDup (map fst m) -> norm_meta m = m.
+Proof. intros ND. unfold norm_meta. apply (fold_sset_nodup m []). exact ND. Qed.
+
 Lemma parsed_items_ok cs w path p v :
   norm_parsed p = exp_norm v -> Forall (section_ok cs w) v ->
   parsed_items all_off path p = map Ok (exp_items path v).
@@ -651,8 +1030,10 @@ Proof.
   intros E F. unfold parsed_items.
   rewrite (sget_norm_none "__replace__" p v E) by (eapply (dunder_not_section cs w); [reflexivity|exact F]).
   rewrite (all_items_ok cs w path p v E F). rewrite map_map. apply map_ext_in. intros u Hu.
-  unfold exp_items in Hu. apply in_flat_map in Hu. destruct Hu as [ns [_ Hu]].
-  apply in_map_iff in Hu. destruct Hu as [ke [<- _]]. reflexivity.
+  unfold exp_items in Hu. apply in_flat_map in Hu. destruct Hu as [ns [Hns Hu]].
+  apply in_map_iff in Hu. destruct Hu as [ke [<- Hke]]. cbn [res_map]. f_equal. unfold mk_upd. cbn. f_equal.
+  apply norm_meta_id. rewrite Forall_forall in F. destruct (F ns Hns) as [_ [_ [_ Fe]]].
+  rewrite Forall_forall in Fe. destruct (Fe ke Hke) as [_ [_ [_ [_ [_ [_ [_ [ND _]]]]]]]]. exact ND.
 Qed.
 
 (* ================================================================== the batch of updates and the rebuilt view *)
@@ -698,7 +1079,7 @@ Proof.
 Qed.
 
 Definition mk_entry_of (path : string) (ke : string * entry) : string * entry :=
-  (fst ke, Entry (fst ke) (e_val (snd ke)) path []).
+  (fst ke, Entry (fst ke) (e_val (snd ke)) path (e_meta (snd ke))).
 Definition exp_section (path : string) (ns : string * sect) : string * sect := (fst ns, map (mk_entry_of path) (snd ns)).
 
 Lemma fold_upd_entries path sn s : forall X,
@@ -737,13 +1118,9 @@ Proof.
   simpl. rewrite names_mk. destruct (F ns Hns) as [_ [_ [N _]]]. exact N.
 Qed.
 
-Lemma content_exp cs w path v :
-  Forall (section_ok cs w) v -> view_content (map (exp_section path) v) = view_content v.
+Lemma content_exp path v : view_content (map (exp_section path) v) = view_content v.
 Proof.
-  intros F. unfold view_content. rewrite map_map. apply map_ext_in. intros ns Hns. simpl. f_equal.
-  rewrite map_map. apply map_ext_in. intros ke Hke. simpl.
-  rewrite Forall_forall in F. destruct (F ns Hns) as [_ [_ [_ Fe]]]. rewrite Forall_forall in Fe.
-  destruct (Fe ke Hke) as [_ [_ [_ [_ [_ [_ [M _]]]]]]]. rewrite M. reflexivity.
+  unfold view_content. rewrite map_map. apply map_ext. intros ns. simpl. f_equal. rewrite map_map. reflexivity.
 Qed.
 
 (* ================================================================== write, then read: the same content *)
@@ -768,7 +1145,7 @@ Proof.
       rewrite flatten_cons. cbn [pset aset pget aget prof_eqb].
       change (flatten [] [(None, map (exp_section "f") (ns :: r))]) with (@nil (string * sect)).
       rewrite (merge_sections_new (map (exp_section "f") (ns :: r)) []).
-      * cbn [app]. rewrite (content_exp cs w "f" _ F). reflexivity.
+      * cbn [app]. rewrite (content_exp "f"). reflexivity.
       * cbn [app]. rewrite map_map. exact ND.
       * apply (exp_sections_wf cs w). exact F.
     + unfold exp_items. rewrite Forall_forall. intros u Hu. apply in_flat_map in Hu. destruct Hu as [x [_ Hu]].
